@@ -229,7 +229,7 @@ func c05CloneUser(u *RUser) *RUser {
 }
 
 func c05OpByName(n string) (c05Op, bool) {
-	for _, o := range append(c05Ops(), c05SOps()...) {
+	for _, o := range append(append(c05Ops(), c05SOps()...), c05R6Ops()...) {
 		if o.Name == n {
 			return o, true
 		}
@@ -768,7 +768,7 @@ func c05FaultSuite(r *Result, rng *rand.Rand, tier string) {
 	} else if tier == "search" {
 		graphs = 10
 	}
-	ops := append(c05Ops(), c05SOps()...)
+	ops := append(append(c05Ops(), c05SOps()...), c05R6Ops()...)
 	t0 := time.Now()
 	worlds, rebuilds, restores := 0, 0, 0
 	defer func() {
@@ -788,6 +788,7 @@ func c05FaultSuite(r *Result, rng *rand.Rand, tier string) {
 			}
 			w := c05BuildS(op, seed, where, true)
 			dump0 := w.dump()
+			phaseOne := map[int]map[string][]string{} // c05_r6.go: per poison index (-1 = none)
 			worlds++
 			rebuild := func() {
 				if o, i := w.quiesce(); o == 0 && i == 0 && w.restore() == nil && reflect.DeepEqual(dump0, w.dump()) {
@@ -831,12 +832,33 @@ func c05FaultSuite(r *Result, rng *rand.Rand, tier string) {
 				if sc.Mech == "trigger" || sc.Mech == "poison" {
 					committed = committedBefore(o.Events, len(o.Events))
 				}
-				if o.Verdict != "" && op.Name == "SaveMissingKey" && listed("F17-C05-save-two-phase") && committed &&
-					(strings.HasPrefix(o.Verdict, "database changed") || strings.HasSuffix(o.Verdict, "applied only partially")) &&
-					(where == "plain" || where == "ctx" || where == "translate" || where == "prepare") {
+				if c05F17Candidate(op.Name, where, o, committed) {
 					// Save(value whose key matches no row): UPDATE phase (with its association upserts) commits in
-					// its own transaction before the INSERT phase starts; a fault in the second phase keeps them
-					r.KnownFinding("F17-C05-save-two-phase", o.Verdict+" ("+o.FaultEv.Kind+")")
+					// its own transaction before the INSERT phase starts; a fault in the second phase keeps them.
+					// EXACTLY that is listed: the database must equal the phase-one state (c05_r6.go) - the failed
+					// fallback phase itself must have left nothing
+					pk := -1
+					if sc.Mech == "poison" {
+						pk = sc.N
+					}
+					p1, have := phaseOne[pk]
+					if !have {
+						rebuild()
+						d, ok := c05PhaseOne(w, pk)
+						if !ok {
+							d = nil
+						}
+						p1 = d
+						phaseOne[pk] = d
+					}
+					if is, verdict := c05F17Exact(o, p1, p1 != nil); is {
+						r.H("save_fallback_fault", "phase-one state kept (F17)")
+						r.KnownFinding("F17-C05-save-two-phase", o.Verdict+" ("+o.FaultEv.Kind+")")
+					} else {
+						obs := c05Obs(o, dump0)
+						obs["phase_one_state"] = p1
+						r.Violate(Violation{Kind: "e2e", Suite: "fault", Input: sc, Observed: obs, Expected: verdict})
+					}
 					rebuild()
 				} else if o.Verdict != "" {
 					r.Violate(Violation{Kind: "e2e", Suite: "fault", Input: sc, Observed: c05Obs(o, dump0), Expected: o.Verdict})
@@ -956,7 +978,7 @@ func c05ReplayFault(r *Result, input json.RawMessage) {
 		r.Note("probe failed: %v", perr)
 	}
 	w := c05BuildS(op, sc.Seed, sc.Where, sc.Stages)
-	defer w.Close()
+	defer func() { w.Close() }()
 	dump0 := w.dump()
 	// the world of the original run had executed the operation (rolled back) before: prepared-statement caches
 	// differ; replay the fault index on a fresh world and, if it is not reached, on a warmed one
@@ -964,6 +986,26 @@ func c05ReplayFault(r *Result, input json.RawMessage) {
 		o := c05RunOne(w, sc, dump0, applied)
 		r.Case("fault", fmt.Sprint(sc), o.Hit)
 		if o.Hit {
+			committed := c05CommittedBefore(o.Events, sc)
+			if sc.Mech == "trigger" || sc.Mech == "poison" {
+				committed = committedBefore(o.Events, len(o.Events))
+			}
+			if c05F17Candidate(sc.Op, sc.Where, o, committed) {
+				// the listed F17 pattern exactly (phase-one state kept) is not a violation (c05_r6.go)
+				w.Close()
+				w = c05BuildS(op, sc.Seed, sc.Where, sc.Stages)
+				pk := -1
+				if sc.Mech == "poison" {
+					pk = sc.N
+				}
+				p1, ok := c05PhaseOne(w, pk)
+				if is, verdict := c05F17Exact(o, p1, ok); !is {
+					obs := c05Obs(o, dump0)
+					obs["phase_one_state"] = p1
+					r.Violate(Violation{Kind: "e2e", Suite: "fault", Input: sc, Observed: obs, Expected: verdict})
+				}
+				return
+			}
 			if o.Verdict != "" {
 				r.Violate(Violation{Kind: "e2e", Suite: "fault", Input: sc, Observed: c05Obs(o, dump0), Expected: o.Verdict})
 			}
